@@ -600,6 +600,29 @@ def compare_results(c, label, ra, rb, counter, wit, rel=3e-4, ab=1e-6, starved=N
             stop = i
             c.count('event_near_tie_between_runs')
             break
+    # The same engine on (what should be) the same model: an event can land on either side of ONE report instant, no more.  A link
+    # whose open/closed state differs at two or more consecutive report steps while it carries flow in one of the runs - and that
+    # is not attached to a tank hovering at a level limit - means the event itself sits at a different time in the two runs.
+    if stop < n_steps:
+        near_limit = set()
+        for tk in (tanks or []):
+            margin = max(0.02, 0.05 * (tk['max_level'] - tk['min_level']))
+            if any(float(r_.node['pressure'][tk['name']].values[i]) <= tk['min_level'] + margin or
+                   float(r_.node['pressure'][tk['name']].values[i]) >= tk['max_level'] - margin
+                   for r_ in (ra, rb) for i in range(n_steps)):
+                near_limit.add(tk['name'])
+        limit_links = set(l2 for tn in near_limit for l2 in (incident or {}).get(tn, []))
+        if incident is not None and not near_limit:
+            for col in Sa.columns:
+                run = 0
+                for i in range(stop, n_steps):
+                    differs = (int(Sa[col].values[i]) == 0) != (int(Sb[col].values[i]) == 0)
+                    material = max(abs(float(ra.link['flowrate'][col].values[i])), abs(float(rb.link['flowrate'][col].values[i]))) > 1e-5
+                    run = run + 1 if (differs and material) else 0
+                    if run >= 2 and col not in limit_links:
+                        c.violate('status_timelines_differ_between_runs', '%s: link %s is %s in one run and %s in the other at %d consecutive report steps from t = %s s' % (
+                            label, col, 'closed' if int(Sa[col].values[i]) == 0 else 'open', 'closed' if int(Sb[col].values[i]) == 0 else 'open', run, ta[i - run + 1]), **wit)
+                        return False
     # ... and a tank hovering at a level limit opens and closes its links between report steps (see the engines monitor)
     for tk in (tanks or []):
         margin = max(0.02, 0.05 * (tk['max_level'] - tk['min_level']))
@@ -837,6 +860,11 @@ def run_reader(c, rng):
             spec = common_spec(rng, c.tier)
             spec['controls'] = [cs for cs in spec['controls'] if cs['kind'] in ('time', 'cond')]     # the emitter writes simple controls only
             units = rng.choice(UNITS)
+            if any(cs['kind'] == 'time' for cs in spec['controls']) and rng.random() < 0.6:
+                # a fine report grid: an event that the reader moves by minutes then differs at several consecutive report steps
+                # (an event may land on either side of ONE report instant between two runs of the same engine)
+                spec['options']['report_timestep'] = 300
+                c.count('reader_fine_report_grid_cases')
             text = emit_inp(spec, units)
             c.set_sig('reader', gnet.signature(spec), units, spec['options']['demand_model'])
             c.sample = {'monitor': 'reader', 'units': units, 'network': gnet.signature(spec)}
